@@ -15,10 +15,13 @@ IMMUTABLE_VALUE = re.compile(r"^(const )?(bool|char|signed char|unsigned char|sh
 ALLOW = [
     (r"::Thread_Storage(<.*>)?::t::my_t$", "the per-thread store itself: one map per thread, entries keyed per storage object (R14.2)"),
     (r"::Thread_Storage(<.*>)?::next_id::s_next_id$", "atomic counter that only hands out unique ids; carries no engine state"),
-    (r"^chaiscript::void_var::v$", "const Boxed_Value singleton for 'void'; const and never assigned"),
-    (r"^chaiscript::const_var::(t|f)$", "const Boxed_Value singletons for true/false; const and never assigned"),
     (r"^chaiscript::Name_Validator::is_reserved_word(<.*>)?::words$", "const set of keyword hashes built once"),
 ]
+
+
+def is_boxed_value_singleton(s):
+    """a Boxed_Value with static storage duration: the handle may be const, the shared Data record behind it (attribute map) is not"""
+    return re.sub(r"^const\s+", "", s["type"].strip()) == "chaiscript::Boxed_Value"
 
 
 def classify(s):
@@ -44,11 +47,10 @@ def run(chk):
     prog = chk.program()
     chk.explanation = ("Inventory of every variable with static or thread storage duration declared under include/chaiscript "
                        "(namespace scope, static data members, static/thread_local locals, in every template instantiation): each "
-                       "must be constexpr, const of arithmetic/char-pointer type, or one of five allow-listed objects with a stated "
+                       "must be constexpr, const of arithmetic/char-pointer type, or one of three allow-listed objects with a stated "
                        "reason.  The per-thread store (Thread_Storage) must key its thread_local map by a never-reused id taken "
                        "from a process-wide atomic counter, not by an address, and every access must use that key.")
     chk.assume("engine state reachable only through the engine object itself dies with it (C++ object lifetime)")
-    chk.assume("the const Boxed_Value singletons are not mutated through their attribute map (script can create attribute keys on them but cannot store values: Boxed_Value::assign rebinds the handle, it does not write through)")
 
     r1 = chk.rule("R14.1", "no mutable object with static or thread storage duration besides the allow-listed ones",
                   "nothing outlives an engine that could carry its variables, functions, types or conversions into another")
@@ -62,9 +64,12 @@ def run(chk):
         if k2 in seen:
             continue
         seen.add(k2)
-        r1.ob("static %s : %s" % (ident, strip_targs(s["type"])[:60]), ok, "%s:%d" % (s["file"], s["line"]), s.get("infn", ""),
-              "%s (%s, type %s%s) can carry state from one engine to another / between threads" % (
-                  s["q"], "thread_local" if s.get("tls") else "static", s["type"][:120], "" if not s.get("const") else ", const but of class type"))
+        detail = "%s (%s, type %s%s) can carry state from one engine to another / between threads" % (
+            s["q"], "thread_local" if s.get("tls") else "static", s["type"][:120], "" if not s.get("const") else ", const but of class type")
+        if is_boxed_value_singleton(s):
+            detail = ("%s is one Boxed_Value shared by every engine and thread of the process; the handle is const but get_var_attr / copy_var_attrs write the attribute "
+                      "map of the Data record it points to (Boxed_Value::assign writes through): an attribute set on the literal in one engine is visible in every other" % s["q"])
+        r1.ob("static %s : %s" % (ident, strip_targs(s["type"])[:60]), ok, "%s:%d" % (s["file"], s["line"]), s.get("infn", ""), detail)
     r1.require(20, "static-storage variables")
 
     # ------------------------------------------------------------------ R14.2
